@@ -21,6 +21,21 @@ CLAIMED = {
  "C09": ("deterministic simulation at the storage seam: seeded operation sequences incl. dirty reopen (byte copy of the open goleveldb dir) and abandoned blocks, compared step by step with a three-layer map model and with a hash twin that executes only the surviving writes",
          "Seeded search (heavy sampling of short sequences plus long ones) over set/delete/get/exists/sessions/block commits/versioned reads/iteration/reopen on State over ChainState over MemDB and goleveldb; every read, existence answer, versioned read inside the retained window, post-reopen version/hash/content and root hash is checked. Sampling, not exhaustive enumeration.",
          "Values are non-empty and never equal the in-band tombstone marker; gas store either absent or effectively unlimited (behaviour after gas exhaustion is not stated by the property); versions older than the rotation window may be gone; keys only present in the block cache are not required to be iterated (property is silent)."),
+ "C02": ("deterministic simulation: full-state dump decoded into a ledger after every commit of a seeded history with hostile-value and byzantine-proposer clients; conservation oracle with the reward allowance observed from the real PullRewards",
+         "Seeded search over block histories mixing every money-moving transaction kind, adversarial amounts (sign, magnitude beyond 2^63/2^256, currency names) and all block-level hooks; after every block the harness's own sum of all value on chain may grow by at most the amount pulled under the reward schedule (OLT) or by locks/refunds finalised in that block (wrapped), and no stored amount may be negative.",
+         "Ledger decoder covers every key family it meets (an unknown family makes the check exit 2). Allowance for wrapped currencies is coarse until tied to the C15 model (any tracker change in the block lifts the bound for that block). OLT allowance is the whole pulled(H), of which only the delegators' share is really minted."),
+ "C03": ("deterministic simulation: per-account holdings from the decoded state dump before/after every block of a seeded history with impersonating and hostile clients; a fall in holdings requires a harness-verified signature of the account, of its validator, or a guilty verdict in that block",
+         "Seeded search over block histories in which every address-typed payload field is pointed at other people's accounts while the transaction is signed by the attacker; the harness verifies signatures itself to decide who signed in a block.",
+         "Guilty-in-this-block is read from the evidence store's freeze record (the verdict logic itself is C19's subject). Accounts considered: every key the simulator created or that ever produced a verifying signature; pools, module addresses and contracts are excluded."),
+ "C04": ("deterministic simulation: single-field mutants of transactions that are valid in the reached state, submitted through CheckTx on a probe node and delivered in mutant-only blocks by a byzantine proposer; empty-block twin for the no-effect oracle",
+         "Seeded search over chain states x transaction kinds x mutation operators (payload, fee, memo, type, signer key, algorithm, signature bytes, signer count/order); every mutant must be rejected by CheckTx and by DeliverTx and the mutant block must hash like an empty block.",
+         "Mutants whose re-serialised signed content and signature list equal the original are excluded (re-encodings are C05's subject); for OLVM the signed content is the Ethereum transaction fields, the envelope's Signer field is unused."),
+ "C05": ("deterministic simulation: executed transactions are resubmitted byte-identical and re-encoded at later heights through CheckTx and in resubmission-only blocks; empty-block twin for the no-effect oracle",
+         "Seeded search over histories x executed transactions x re-encodings that keep the signed content (key order, whitespace, extra field, shadowed duplicate key, escapes, key case) x resubmission heights; CheckTx must reject and the resubmission block must hash like an empty block.",
+         "Assumes the node's tx index is complete for every block its Tendermint state has applied (zero indexing lag)."),
+ "C18": ("deterministic simulation with process-level observation: hostile-value, garbage, impersonating and known-lethal inputs go through CheckTx and into blocks on one replica per worker process; worker death, escaped panics, self-shutdown and a per-block liveness probe are the oracles",
+         "Seeded search over reached chain states x structure-aware hostile inputs of every kind; process exits are captured by re-running the seed with trace streaming so that the killing prefix becomes the replay file.",
+         "Go runtime fatal errors that cannot be recovered (stack exhaustion, out of memory) are only observed as process death, not attributed further."),
 }
 NOT_YET = {}  # filled below
 
